@@ -315,3 +315,71 @@ CHECKS["C09"] = dict(
     only_differential=True,
     min_outcomes=1000, require_counts=dict(any=dict(differential_cases_compared=100000)),
 )
+
+# ---- harnesses written by helper agents following docs/HARNESS_AUTHOR_GUIDE.md (reviewed and integrated) -----------------------------
+CHECKS["C16"] = dict(
+    level="exploration", engine="E1", technique=E1_TECH, level_note=E1_NOTE,
+    level_text="matmul (both implementations: the matmul_t view and matmulv2), dot, inner, outer, vecdot (keepdims off/on), tensordot (run-time int axes, ct axes, explicit axis-list pairs in "
+               "non-negative and negative spelling), kron and trace are executed for ALL ordered operand-shape pairs of the small scope (valid and invalid: where NumPy raises the library must "
+               "report Nothing), lazy view and evaluated array, and compared shape + every element with naive nested-loop models audited against NumPy (audit/audit_c16.py, audit/run_audit).",
+    units=[U("matmul", "harness/c16_linalg.cpp", flags=["-DC16_MATMUL"], weight=3), U("dot", "harness/c16_linalg.cpp", flags=["-DC16_DOT"], weight=3),
+           U("tensordot", "harness/c16_linalg.cpp", flags=["-DC16_TENSORDOT"], weight=2), U("kron", "harness/c16_linalg.cpp", flags=["-DC16_KRON"]),
+           U("matmul_san", "harness/c16_linalg.cpp", flags=["-DC16_MATMUL"], san=True, family="matmul", shadow=True, weight=4, tiers=["thorough"], run_tier="quick", asan_options="malloc_context_size=0:symbolize=0"),
+           U("dot_san", "harness/c16_linalg.cpp", flags=["-DC16_DOT"], san=True, family="dot", shadow=True, weight=4, tiers=["thorough"], run_tier="quick", asan_options="malloc_context_size=0:symbolize=0"),
+           U("kron_san", "harness/c16_linalg.cpp", flags=["-DC16_KRON"], san=True, family="kron", shadow=True, tiers=["thorough"], run_tier="quick", asan_options="malloc_context_size=0:symbolize=0")],
+    rule="case = (routine, lhs shape, rhs shape, axes); non-trivial = NumPy accepts it and every output element is a sum of >= 2 products (outer / kron / 0 contracted axes: both operands have >= 2 elements; "
+         "trace: diagonal has >= 2 elements); distinct = distinct key",
+    bounds=dict(quick="matmulv2: all pairs of S(1..4,3); matmul_t, dot, inner, outer, vecdot, kron: all pairs of S(1..3,3) u S(1..4,2); tensordot: pairs of S(1..2,3) u S(1..3,2) with every n and every explicit pairing; trace: S(2..4,3), all axis pairs in 4 sign spellings, offsets [-n,n]",
+                thorough="matmulv2 S(1..4,4)^2; others S(1..3,4) u S(1..4,3); tensordot S(1..3,4) u S(1..4,2); trace S(2..4,4)"),
+    assumptions=["integer-valued distinct data (< 1300) so every sum of products is exact", "np.trace of an out-of-range offset is 0 (a non-empty result), so those cases are in scope (trace_empty)"],
+    min_outcomes=2000,
+)
+CHECKS["C12"] = dict(
+    level="exploration", engine="E1", technique=E1_TECH + "; operands and outputs are placed flush against PROT_NONE guard pages (after the buffer in one run, before it in a second run)",
+    level_note="trusted: the default (scalar) evaluator and a typed float/double naive model (engine/nmc_ref_c12.hpp, 680 sample cases bit-identical with NumPy float32/float64), the guard allocator, g++ 12 -mavx2 -mfma.",
+    level_text="For each SIMD context (x86 SSE, x86 AVX; thorough adds vector extensions 128/256/512 and SIMDe AVX-512) x dtype x supported op (unary family, binary add/subtract/multiply/divide, their "
+               "reduce and outer forms, matmul) every 1-D element count 1..2*lanes+1 (thorough 4*lanes+1), 2-D shapes over {1,2,lanes-1,lanes,lanes+1,2*lanes+1}^2 in every broadcast pattern, n-d reductions on every "
+               "axis (both spellings), None, keepdims in four forms, operands in row- and column-major layout are evaluated with the SIMD context and compared bit for bit (memcmp) with the default evaluator, the lazy "
+               "view and the model; data are dyadic so every sum and product is exact.",
+    units=[U("sse", "harness/c12_simd.cpp", flags=["-mavx2", "-mfma", "-DC12_CTX_SSE"], weight=2), U("avx", "harness/c12_simd.cpp", flags=["-mavx2", "-mfma", "-DC12_CTX_AVX"], weight=2),
+           U("vec128", "harness/c12_simd.cpp", flags=["-mavx2", "-mfma", "-DC12_CTX_VEC128"], tiers=["thorough"]), U("vec256", "harness/c12_simd.cpp", flags=["-mavx2", "-mfma", "-DC12_CTX_VEC256"], tiers=["thorough"], weight=2),
+           U("vec512", "harness/c12_simd.cpp", flags=["-mavx2", "-mfma", "-DC12_CTX_VEC512"], tiers=["thorough"], weight=3), U("simde512", "harness/c12_simd.cpp", flags=["-mavx2", "-mfma", "-DC12_CTX_SIMDE512"], tiers=["thorough"], weight=3),
+           U("avx_san_ew", "harness/c12_simd.cpp", flags=["-mavx2", "-mfma", "-DC12_CTX_AVX", "-DC12_PART_EW"], san=True, family="avx", shadow=True, tiers=["thorough"], run_tier="quick", weight=2),
+           U("avx_san_outer", "harness/c12_simd.cpp", flags=["-mavx2", "-mfma", "-DC12_CTX_AVX", "-DC12_PART_OUTER"], san=True, family="avx", shadow=True, tiers=["thorough"], run_tier="quick", weight=2),
+           U("avx_san_red", "harness/c12_simd.cpp", flags=["-mavx2", "-mfma", "-DC12_CTX_AVX", "-DC12_PART_RED"], san=True, family="avx", shadow=True, tiers=["thorough"], run_tier="quick", weight=2)],
+    rule="case = (op kind, context, dtype, layouts, shapes, axis, keepdims form); non-trivial = at least one full SIMD pack is processed (the vectorised extent has >= lanes elements); distinct = distinct key",
+    bounds=dict(quick="SSE + AVX, float, counts 1..2*lanes+1, E x E 2-D shapes, V^3 3-D shapes", thorough="six contexts, float + double, counts 1..4*lanes+1, 3-D outer operands"),
+    assumptions=["subtract.reduce / divide.reduce are excluded ('equal up to re-association' is undefined for a non-associative op)", "reciprocal, divide.outer, SIMDe shrink/swish ops and SIMDe matmul<double> do not compile on the pinned tree (loud) and are skipped",
+                 "broadcasting beyond 2-D is refused by the SIMD evaluator (quantifier says 2-D)"],
+    min_outcomes=2000,
+)
+CHECKS["C07"] = dict(
+    level="exploration", engine="E1", technique=E1_TECH + "; the scalar operation itself is not re-modelled: the very functor the library stores is applied to reference-broadcast operand elements and the results are compared bit for bit",
+    level_note="trusted: the NumPy broadcast-pairing reference (engine/nmc_ref_c07.hpp, audited against NumPy on 15324 cases), the library's own scalar functors as element oracle, g++ 12.",
+    level_text="All 71 ufuncs and 18 activations (12 translation units): all ordered operand-shape pairs of the small scope (compatible and incompatible: the latter must report Nothing), operand kinds ndarray / "
+               "transposed lazy view / plain scalar in 7 combinations, 8 element types with all 64 ordered type pairs for add / divide / less / equal and 16 pairs for the rest of the arithmetic-comparison family, "
+               "triples for where, outer forms with dtype; result shape = broadcast shape, element i = op(a[bi_a(i)], b[bi_b(i)]) bit-identically, result element type = decltype(op(a,b)) or the requested dtype.",
+    units=[U("g%d" % g, "harness/c07_ufuncs.cpp", flags=["-DC07_GROUP=%d" % g], weight=(2 if g <= 8 else 1)) for g in range(1, 13)] +
+          [U("g%d_san" % g, "harness/c07_ufuncs.cpp", flags=["-DC07_GROUP=%d" % g], san=True, family="g%d" % g, shadow=True, tiers=["thorough"], run_tier="quick", asan_options="malloc_context_size=0") for g in (1, 7, 8, 12)],
+    rule="case = (function, type pair, kind pair, shapes); non-trivial = shapes broadcastable, result has >= 2 elements and (an operand is stretched / rank-extended / scalar, or is a transposed view of rank >= 2, or the "
+         "element types differ); unary: result size >= 2; outer: both operands >= 2 elements; distinct = distinct key",
+    bounds=dict(quick="pairs S(1..3,3)^2 + extent-4 boundary in dims 1..2; where triples S(1..3,2)^3 + S(1..2,3)^3; outer S(1..2,3)^2", thorough="pairs S(1..4,3)^2 + extent-4 boundary + 9 larger fixed pairs; where S(1..3,3)^3; outer S(1..3,3)^2"),
+    assumptions=["value grids stay inside each operation's domain (no division by zero, shifts within width, no signed overflow)", "clip and the generic n-ary ufunc do not compile for array operands on the pinned tree (upstream disabled its own clip tests): the ternary family is represented by where",
+                 "0-dim arrays do not exist in nmtools: a plain scalar stands in"],
+    min_outcomes=5000,
+)
+CHECKS["C15"] = dict(
+    level="exploration", engine="E1", technique=E1_TECH, level_note=E1_NOTE + " Two builds of every unit: assertions on and -DNDEBUG (many checks of the library live in nmtools_cassert).",
+    level_text="For each run-time-checked operation the FULL small-scope argument space including the invalid part (reshape targets over -2..4; axis lists over [-d-2,d+1] incl. duplicates for transpose, moveaxis, "
+               "swapaxes, expand_dims, flip, sum, cumsum, concatenate, stack, take, compress, roll, repeat, tile, pad; incompatible operand pairs for broadcast_to, add, broadcast_arrays, matmul, dot, tensordot) is "
+               "executed: has_value(result) <=> NumPy does not raise (validity predicates audited against NumPy 2.4 on every enumerated case), the value equals the model when valid, and nothing may crash.",
+    units=[U(n, "harness/c15_invalid.cpp", flags=["-DC15_" + n.upper()], weight=w) for (n, w) in (("rearr", 4), ("reduce", 1), ("select", 3), ("stack", 1), ("bcast", 1), ("linalg", 3))] +
+          [U(n + "_ndebug", "harness/c15_invalid.cpp", flags=["-DC15_" + n.upper(), "-DNDEBUG"], family=n, shadow=True, weight=w) for (n, w) in (("rearr", 2), ("reduce", 1), ("select", 1), ("stack", 1), ("bcast", 1), ("linalg", 1))] +
+          [U(n + "_san", "harness/c15_invalid.cpp", flags=["-DC15_" + n.upper()], san=True, family=n, shadow=True, weight=w, tiers=["thorough"], run_tier="quick", asan_options="malloc_context_size=0:symbolize=0") for (n, w) in (("reduce", 1), ("bcast", 1), ("stack", 1))],
+    rule="case = (operation, source shape(s), argument lists); non-trivial = NumPy raises for the arguments, or the NumPy result is non-empty and differs from the first operand; distinct = distinct key",
+    bounds=dict(quick="sources S(1..4,2) (scalar axes, axis lists of length <= 2), operand pairs of S(1..3,2), reshape targets of length 1..3 over -2..4 on S(1..3,2) u S(1..2,3), add / broadcast_arrays over S(1..3,3)^2",
+                thorough="sources S(1..4,3), length-3 axis lists on S(1..3,2), operand pairs S(1..3,3)^2, reshape on S(1..4,3) x 399 targets"),
+    assumptions=["NumPy 2.4 accepts any single negative reshape entry as the unknown extent although only -1 is documented: both answers are accepted for those targets",
+                 "results NumPy returns empty are accepted as Nothing or as the exact zero-extent shape (nmtools has no empty arrays)", "the pipeline-propagation clause is covered by the E2 explorer (c_pipeline) only for valid stages; propagation of Nothing is exercised by the maybe-lifting inside the harness's nested calls"],
+    min_outcomes=2000,
+)
